@@ -156,7 +156,7 @@ Definition step (g : cfg) (e : event) : cfg * bres :=
       let s' := fun k => look (srv g) t' k in
       (* a listener whose 10 s pause is over subscribes again and starts from an empty local copy *)
       let wake (c : client) := match reconnect c with
-                               | Some r => if r <=? t' then {| local := fun _ => None; marks := marks c; started := true; queue := []; reconnect := None |} else c
+                               | Some r => if r <=? t' then {| local := fun _ => None; marks := fun _ => None; started := true; queue := []; reconnect := None |} else c
                                | None => c end in
       ({| srv := s'; now := t'; clients := fun j => wake (push (clients g j) (map MKey expired)); nclients := nclients g |}, BUnit)
   | Drop i =>
